@@ -2528,8 +2528,9 @@ func (db *DB) WriteLTXFileAt(ctx context.Context, r io.Reader) (string, error) {
 		return "", fmt.Errorf("decode ltx header: %w", err)
 	}
 
-	// The page size of an existing database cannot change: the file could not be applied.
-	if db.pageSize != 0 && hdr.PageSize != db.pageSize {
+	// The page size of an existing database cannot change: the file could not
+	// be applied. A snapshot replaces the whole database, whatever its page size.
+	if db.pageSize != 0 && hdr.PageSize != db.pageSize && !hdr.IsSnapshot() {
 		return "", fmt.Errorf("ltx page size (%d) does not match database page size (%d)", hdr.PageSize, db.pageSize)
 	}
 
